@@ -4,6 +4,7 @@ package msg
 
 import (
 	"io"
+	"reflect"
 
 	jsonMsg "github.com/fatedier/golib/msg/json"
 
@@ -127,22 +128,29 @@ func verifReadLoopIter(d *Dispatcher) bool {
 	}
 	m := verif.IterRet[Message]("msg.ReadMsg", 0)
 	delivered := verif.CalledWithInIter("dyncall:pkg/msg.verifSpec_handler", 0, m) || verif.CalledWithInIter("dyncall:pkg/msg.verifSpec_defaultHandler", 0, m)
+	// a message of a type nobody registered for, on a dispatcher without a
+	// default handler, is dropped: no function value is called for it (there is
+	// none to call - C16 "no input crashes")
+	if !verif.Has(d.msgHandlers, verif.IterRet[reflect.Type]("reflect.TypeOf", 0)) && d.defaultHandler == nil {
+		return !verif.CalledInIter("dyncall:")
+	}
 	return delivered || d.defaultHandler == nil
 }
 
 // Handlers are unknown code. Assumed frame (listed in the evidence): a handler
 // may do anything except touch the dispatcher's private fields or close its
-// done channel - those are written only inside this package, and close(doneCh)
+// done channel or its handler table (the only map of that type) - those are
+// written only inside this package, and close(doneCh)
 // appears only in readLoop.
 //
 //verif:dyncall (*~/pkg/msg.Dispatcher).readLoop 1
 func verifSpec_handler(m Message) {
-	verif.HavocExcept("ChClosed@H.pkg.msg.Dispatcher.doneCh", "H.pkg.msg.Dispatcher.")
+	verif.HavocExcept("ChClosed@H.pkg.msg.Dispatcher.doneCh", "H.pkg.msg.Dispatcher.", "Md.map_Lreflect.TypeR_func_pkg.msg.Message_")
 }
 
 //verif:dyncall (*~/pkg/msg.Dispatcher).readLoop 2
 func verifSpec_defaultHandler(m Message) {
-	verif.HavocExcept("ChClosed@H.pkg.msg.Dispatcher.doneCh", "H.pkg.msg.Dispatcher.")
+	verif.HavocExcept("ChClosed@H.pkg.msg.Dispatcher.doneCh", "H.pkg.msg.Dispatcher.", "Md.map_Lreflect.TypeR_func_pkg.msg.Message_")
 }
 
 //verif:lemma
